@@ -713,7 +713,8 @@ def purity_runs(P):
         if rets and all(any(d[0].startswith("unknown test") for d in r.path) for r in rets):
             raise AnalysisError("every returning path of the solver rests on a test that is not modelled (footprint=%s)" % fp)
         rets = [r for r in rets if not any(d[0].startswith("unknown test") for d in r.path)]
-        general = [r for r in rets if not RS.zero_atoms(r)]  # special-case paths (an input quantity vanishes) are R-PATHS' matter
+        tower = {RS.atom_of(S.xm), RS.atom_of(S.ym)}
+        general = [r for r in rets if not (RS.zero_atoms(r) - tower)]  # special-case paths (an input quantity vanishes) are R-PATHS' matter
         if general:
             rets = general
         th = alg.sym("bldfm.config.NUM_THREADS") - ONE
@@ -744,8 +745,8 @@ def purity_runs(P):
         S2, res2 = SA.run(fp, False, "generic", precision="single")
         r1 = [RS.PathView(S, r) for r in rets]
         res2g = [r for r in res2 if r.kind == "return" and not any(d[0].startswith("unknown test") for d in r.path)]
-        if any(not RS.zero_atoms(r) for r in res2g):
-            res2g = [r for r in res2g if not RS.zero_atoms(r)]
+        if any(not (RS.zero_atoms(r) - tower) for r in res2g):
+            res2g = [r for r in res2g if not (RS.zero_atoms(r) - tower)]
         r2 = [RS.PathView(S2, r) for r in res2g]
         site = "src/bldfm/solver.py::steady_state_transport_solver::precision (footprint=%s)" % fp
         obs.append(req_ob("R-PREC", site, "both precisions have the same set of paths", len(r1) == len(r2)))
